@@ -64,9 +64,18 @@ def run_store(ops, clockname, ext, tmp, tag):
     with patched_clock(clock, samplers=False), quiet():
         s = Samples(fn, mode="w", overwrite=True)
         k = 0
+        # the caller may hand over a fresh array per column, or refill one work array in place between appends
+        work = None
+        reuse = (tag.__hash__() if isinstance(tag, str) else int(tag)) % 2 == 1
         for op in ops:
             if op[0] == "P":
-                s.append(op[1].copy())
+                if reuse:
+                    if work is None:
+                        work = np.empty_like(op[1])
+                    work[:] = op[1]
+                    s.append(work)
+                else:
+                    s.append(op[1].copy())
             elif op[0] == "F":
                 s.flush_buffer()
             else:
@@ -107,7 +116,7 @@ def run(tier, seed):
     rnd = random.Random(2654435761 * (seed + 1) % (1 << 31))
     thorough = tier == "thorough"
     findings = []
-    st = Suite("C10.ops", "random op sequences over {append(column), flush, write_attribute} then close, on real HDF5 and NPY files under five scripted clock "
+    st = Suite("C10.ops", "random op sequences over {append(column), flush, write_attribute} then close (columns handed over as fresh arrays or through one work array refilled in place), on real HDF5 and NPY files under scripted clock "
                "behaviours: write_index after every op and the file read back (array, [:, :], [:, j], [0,0], samples, misfits) for every burn-in vs the "
                "model store; exact; non-trivial = >= 3 appends and >= 1 automatic flush")
     with scratch() as tmp:
